@@ -331,7 +331,7 @@ def run(ctx):
     drv = C.drv_path() if drv_ok else None
     n = 3000 if ctx.tier == "quick" else 40000
     explore(ctx, h, drv, n, "main")
-    if ctx.proof_broken or ctx.corr_broken:
+    if (ctx.proof_broken or ctx.corr_broken) and not ctx.violations:
         ctx.log("obligation or correspondence broken: widening the search for a failing input")
         for i in range(4):
             explore(ctx, h, drv, 6000, "search%d" % i)
